@@ -1,0 +1,185 @@
+//! Verification hooks for `p2p::header_session` (compiled only with `--cfg eigerco_lumina_verif`).
+//!
+//! Strictly additive. This module is a descendant of `crate::p2p`, so it can reach the private
+//! items of both `header_session` and `p2p`:
+//!
+//! * [`SessionDriver`] — the real [`HeaderSession`] over a fresh `mpsc::channel::<P2pCmd>`; the
+//!   requests it issues are exposed through [`HeaderRequests`] as plain public values
+//!   ([`IssuedRequest`]: the protobuf request and the oneshot responder).
+//! * [`VerifP2p`] — a mocked `P2p` (additive copy of the `#[cfg(test)]` `P2p::mocked()`), wrapped in a
+//!   public type because `P2p` itself is `pub(crate)`; exposes `get_verified_headers_range`.
+//! * [`next_header_request`] / [`try_next_header_request`] — receive the `P2pCmd::HeaderExRequest`s
+//!   sent to a [`MockP2pHandle`] without the panicking/time-limited `expect_*` helpers.
+
+use celestia_proto::p2p::pb::HeaderRequest;
+use celestia_types::ExtendedHeader;
+use libp2p::PeerId;
+use lumina_utils::executor::spawn;
+use tokio::sync::mpsc::error::TryRecvError;
+use tokio::sync::{mpsc, oneshot, watch};
+use tokio_util::sync::CancellationToken;
+
+use super::HeaderSession;
+use crate::p2p::{P2p, P2pCmd, P2pError};
+use crate::peer_tracker::PeerTrackerInfo;
+use crate::test_utils::MockP2pHandle;
+
+/// Responder of one header-ex request.
+pub type HeaderResponder = oneshot::Sender<Result<Vec<ExtendedHeader>, P2pError>>;
+
+/// One `P2pCmd::HeaderExRequest` as plain public data.
+pub struct IssuedRequest {
+    /// The protobuf request (`data` = origin height or hash, `amount`).
+    pub request: HeaderRequest,
+    /// Where the answer goes.
+    pub respond_to: HeaderResponder,
+}
+
+/// Result of a non-blocking receive.
+pub enum TryNext {
+    /// A header-ex request was queued.
+    Request(IssuedRequest),
+    /// Nothing queued right now.
+    Empty,
+    /// Every sender is gone.
+    Closed,
+}
+
+fn try_next_on(rx: &mut mpsc::Receiver<P2pCmd>) -> TryNext {
+    loop {
+        match rx.try_recv() {
+            Ok(P2pCmd::HeaderExRequest {
+                request,
+                respond_to,
+            }) => {
+                return TryNext::Request(IssuedRequest {
+                    request,
+                    respond_to,
+                });
+            }
+            // other commands are irrelevant for these simulations
+            Ok(_) => continue,
+            Err(TryRecvError::Empty) => return TryNext::Empty,
+            Err(TryRecvError::Disconnected) => return TryNext::Closed,
+        }
+    }
+}
+
+async fn next_on(rx: &mut mpsc::Receiver<P2pCmd>) -> Option<IssuedRequest> {
+    loop {
+        match rx.recv().await? {
+            P2pCmd::HeaderExRequest {
+                request,
+                respond_to,
+            } => {
+                return Some(IssuedRequest {
+                    request,
+                    respond_to,
+                });
+            }
+            _ => continue,
+        }
+    }
+}
+
+/// Receiving side of the command channel a [`SessionDriver`] writes to.
+pub struct HeaderRequests {
+    rx: mpsc::Receiver<P2pCmd>,
+}
+
+impl HeaderRequests {
+    /// Non-blocking receive of the next header-ex request.
+    pub fn try_next(&mut self) -> TryNext {
+        try_next_on(&mut self.rx)
+    }
+
+    /// Wait for the next header-ex request (`None`: all senders dropped).
+    pub async fn next(&mut self) -> Option<IssuedRequest> {
+        next_on(&mut self.rx).await
+    }
+}
+
+/// The real `HeaderSession` for `start..=end`.
+pub struct SessionDriver {
+    session: HeaderSession,
+}
+
+impl SessionDriver {
+    /// `HeaderSession::new(start..=end, cmd_tx)` over a fresh command channel of the same
+    /// capacity `P2p` uses (16).
+    pub fn new(start: u64, end: u64) -> (SessionDriver, HeaderRequests) {
+        let (cmd_tx, cmd_rx) = mpsc::channel(16);
+        let session = HeaderSession::new(start..=end, cmd_tx);
+        (SessionDriver { session }, HeaderRequests { rx: cmd_rx })
+    }
+
+    /// `HeaderSession::run`.
+    pub async fn run(&mut self) -> Result<Vec<ExtendedHeader>, P2pError> {
+        self.session.run().await
+    }
+
+    /// The batch size the session chose.
+    pub fn batch_size(&self) -> u64 {
+        self.session.batch_size
+    }
+}
+
+/// A mocked `P2p` behind a public type.
+pub struct VerifP2p {
+    p2p: P2p,
+}
+
+/// Additive copy of the `#[cfg(test)]`-only `P2p::mocked()`.
+fn verif_mocked() -> (P2p, MockP2pHandle) {
+    let (cmd_tx, cmd_rx) = mpsc::channel(16);
+    let (peer_tracker_tx, peer_tracker_rx) = watch::channel(PeerTrackerInfo::default());
+    let cancellation_token = CancellationToken::new();
+
+    // Just a fake join_handle
+    let join_handle = spawn(async {});
+
+    let p2p = P2p {
+        cmd_tx: cmd_tx.clone(),
+        cancellation_token,
+        join_handle,
+        peer_tracker_info_watcher: peer_tracker_rx,
+        local_peer_id: PeerId::random(),
+    };
+
+    let handle = MockP2pHandle {
+        cmd_tx,
+        cmd_rx,
+        header_sub_tx: None,
+        peer_tracker_tx,
+    };
+
+    (p2p, handle)
+}
+
+impl VerifP2p {
+    /// Creates a mocked p2p handler (must be called inside a tokio runtime).
+    pub fn mocked() -> (VerifP2p, MockP2pHandle) {
+        let (p2p, handle) = verif_mocked();
+        (VerifP2p { p2p }, handle)
+    }
+
+    /// `P2p::get_verified_headers_range`.
+    pub async fn get_verified_headers_range(
+        &self,
+        from: &ExtendedHeader,
+        amount: u64,
+    ) -> Result<Vec<ExtendedHeader>, P2pError> {
+        self.p2p.get_verified_headers_range(from, amount).await
+    }
+}
+
+/// Wait for the next `P2pCmd::HeaderExRequest` sent to the mocked `P2p` (other commands are
+/// skipped). `None`: all senders dropped.
+pub async fn next_header_request(handle: &mut MockP2pHandle) -> Option<IssuedRequest> {
+    next_on(&mut handle.cmd_rx).await
+}
+
+/// Non-blocking variant of [`next_header_request`].
+pub fn try_next_header_request(handle: &mut MockP2pHandle) -> TryNext {
+    try_next_on(&mut handle.cmd_rx)
+}
